@@ -451,7 +451,7 @@ func (w *Worktree) Reset(opts *ResetOptions) error {
 	}
 
 	if opts.Mode == HardReset || opts.Mode == KeepReset {
-		if err := w.resetWorktreeToTree(cfg, prevTree, t, opts.Files); err != nil {
+		if err := w.resetWorktreeToTree(cfg, prevTree, t, opts.Files, opts.Mode == KeepReset); err != nil {
 			return err
 		}
 	}
@@ -728,7 +728,11 @@ func (w *Worktree) checkKeepResetConflicts(fromTree, toTree *object.Tree, sparse
 //     file with SkipWorktree=true must not exist in the worktree.
 //
 // files optionally restricts the operation to a specific subset of paths.
-func (w *Worktree) resetWorktreeToTree(cfg *config.Config, fromTree, toTree *object.Tree, files []string) error {
+//
+// With onlyChanged (keep mode) a file that exists in the worktree is only
+// rewritten when it differs between fromTree and toTree; every other file
+// keeps its local modifications. Missing files are still written.
+func (w *Worktree) resetWorktreeToTree(cfg *config.Config, fromTree, toTree *object.Tree, files []string, onlyChanged bool) error {
 	filesMap := buildFilePathMap(files)
 
 	fs, closeFS := w.reusableRootFS()
@@ -739,15 +743,18 @@ func (w *Worktree) resetWorktreeToTree(cfg *config.Config, fromTree, toTree *obj
 	if err != nil {
 		return err
 	}
+	changed := make(map[string]struct{}, len(treeChanges))
 	for _, ch := range treeChanges {
 		a, err := ch.Action()
 		if err != nil {
 			return err
 		}
 		if a != merkletrie.Delete {
+			changed[ch.To.String()] = struct{}{}
 			continue
 		}
 		name := ch.From.String()
+		changed[name] = struct{}{}
 		if len(files) > 0 && !inFiles(filesMap, name) {
 			continue
 		}
@@ -797,6 +804,12 @@ func (w *Worktree) resetWorktreeToTree(cfg *config.Config, fromTree, toTree *obj
 		if len(files) > 0 {
 			file := ch.To.String()
 			if !inFiles(filesMap, file) {
+				continue
+			}
+		}
+
+		if onlyChanged && a == merkletrie.Modify {
+			if _, ok := changed[ch.To.String()]; !ok {
 				continue
 			}
 		}
